@@ -48,8 +48,14 @@ import sys
 
 from vlib import env
 
-THEOREMS = []
-T1_THEOREMS = []
+THEOREMS = [
+    "revert_keeps_user_content", "revert_keeps_user_content_partial", "revert_no_basis_witness",
+    "revert_no_backup_keeps_added", "revert_deletes_only_unedited_or_on_request",
+    "firstFree_sound", "firstFree_congr", "firstFree_total", "backup_name_fresh",
+    "remove_safe", "remove_keep", "remove_deletes_only_clean",
+    "merge_keeps_local", "merge_helper_iff", "uncommit_pure",
+]
+T1_THEOREMS = ["source_flags_covered"]
 RUST = ("osutils-py",)
 RULE = ("scenario = (format, random two-revision history with a side branch, local state with modified / added / "
         "re-added / unknown / merged files, command with options); distinct by canonical scenario; non-trivial = "
